@@ -19,7 +19,7 @@ type tracer struct {
 	flushed int64 // commit offset at the last completed flush
 	last    int64 // commit offset after the last completed step
 	on      bool
-	appends int64  // entries handed to the WAL by the completed steps
+	appends int64 // entries handed to the WAL by the completed steps
 	// the append that the step interrupted by the crash may already have handed to the WAL
 	pendingAppend string
 }
